@@ -7,7 +7,7 @@
 From Coq Require Import List PArith ZArith Bool String FMapPositive.
 From SV Require Import SM.Store SM.StoreProofs SM.StoreCert SM.StoreCertProofs SM.StoreCopy SM.StoreCopyProofs
   SM.StoreExamples SM.KvAdd SM.KvAddProofs SM.StoreCopySrc SM.StoreCopySrcProofs SM.KvAddFresh SM.KvAddFreshProofs
-  SM.StoreCopyExport SM.StoreCopyExportProofs SM.StoreCopyFlow SM.StoreCopyFlowProofs SM.StoreCopyWholeProofs SM.StoreRowCert SM.StoreRowCertProofs SM.StoreExportCert SM.StoreExportCertProofs SM.StoreTypedLabels SM.StoreTypedLabelsProofs SM.StoreCondRow SM.StoreCondRowProofs SM.StorePickleState SM.StorePickleStateProofs SM.StorePickleShort SM.StorePickleShortProofs SM.OpPurity SM.OpPurityProofs SM.CollapseCensus SM.CollapseCensusProofs
+  SM.StoreCopyExport SM.StoreCopyExportProofs SM.StoreCopyFlow SM.StoreCopyFlowProofs SM.StoreCopyWholeProofs SM.StoreRowCert SM.StoreRowCertProofs SM.StoreExportCert SM.StoreExportCertProofs SM.StoreTypedLabels SM.StoreTypedLabelsProofs SM.StoreCondRow SM.StoreCondRowProofs SM.StorePickleState SM.StorePickleStateProofs SM.StorePickleShort SM.StorePickleShortProofs SM.OpPurity SM.OpPurityProofs SM.CollapseCensus SM.CollapseCensusProofs SM.InstanceFromEntity
   Gen.CopyCensus_gen Gen.CopyExportReads_gen Gen.C09OpCensus_gen Gen.C09Collapse_gen.
 Import ListNotations.
 
@@ -700,6 +700,25 @@ Proof.
   destruct short_untested_int_refuted as (A & B & C). destruct short_optstr_accepted_and_str_refuted as (D & _ & E & _ & F).
   repeat split; assumption.
 Qed.
+
+(** ROUND 5 — [Instance.from_entity].  [instance_from_entity] (generated from instancing.py): the origin of every value the
+    Instance is built from.  Instance obligation [instance_from_entity_shares_only_outputs]: the only objects of the
+    func_instance entity that reach the Instance are its Outputs (read-only there: census of collapse_one), and the $fixup
+    values are copies ([EntityFixup.copy_values], itself a census label). *)
+Theorem c09_from_entity_shares_only : forall allowed rows, from_entity_shares_only allowed rows = true ->
+  forall f o, In (f, o) rows -> origin_shared o = true -> In f allowed.
+Proof. exact from_entity_shares_only_spec. Qed.
+
+Theorem c09_from_entity_copies : forall f rows, from_entity_copies f rows = true ->
+  (exists o, In (f, o) rows) /\ forall o, In (f, o) rows -> o = CCopy.
+Proof. exact from_entity_copies_spec. Qed.
+
+Theorem c09_from_entity_shared_fixup_refuted :
+  from_entity_shares_only ["outputs"%string] [("outputs"%string, CTemplate); ("fixup"%string, CTemplate)] = false /\
+  from_entity_copies "fixup"%string [("outputs"%string, CTemplate); ("fixup"%string, CTemplate)] = false /\
+  from_entity_shares_only ["outputs"%string] [("outputs"%string, CTemplate); ("fixup"%string, CCopy)] = true /\
+  from_entity_copies "fixup"%string [("outputs"%string, CTemplate); ("fixup"%string, CCopy)] = true.
+Proof. exact from_entity_shared_fixup_rejected. Qed.
 
 (** ROUND 5 — THE WHOLE PROPERTY FROM GENERATED OBJECTS ONLY.  Every hypothesis above the line is a boolean over objects the
     translators regenerate from vmf.py / keyvalues.py / math.py / instancing.py on every run, and is discharged by a named
